@@ -115,7 +115,8 @@ func c12Exercise(e iface.IPFSLogEntry, others []iface.IPFSLogEntry, provider idp
 		})
 	}
 	try("sortlist", func() { l := append([]iface.IPFSLogEntry{}, all...); sorting.Sort(sorting.SortByEntryHash, l, false) })
-	try("verify", func() { _ = e.Verify(provider, io) })
+	// twice with the same provider: an answer remembered from the first call must be as safe as the first
+	try("verify", func() { _ = e.Verify(provider, io); _ = e.Verify(provider, io) })
 	try("reencode", func() { a, _ := newAPI(); _, _ = entry.ToMultihashWithIO(context.Background(), e, a, nil, io) })
 	try("hashable", func() { _, _ = entry.ToHashable(e) })
 	return out
